@@ -22,6 +22,7 @@ import AbtemVerif.Model.Prism
 import AbtemVerif.Model.PrismEnsemble
 import AbtemVerif.Gen.PrismR
 import AbtemVerif.Lib.DFT
+import AbtemVerif.Lib.DFT2
 import Mathlib.Analysis.SpecialFunctions.Complex.Circle
 import Mathlib.Tactic.Ring
 import Mathlib.Tactic.Linarith
@@ -251,6 +252,43 @@ theorem planewave_is_invDFT_delta (k j : ZMod N) :
   show (ZMod.dft (N := N) (E := ℂ)).symm (Pi.single k 1) j = _
   rw [ZMod.invDFT_apply]
   simp [Pi.single_apply, Finset.sum_ite_eq', mul_comm]
+
+omit [NeZero N] in
+/-- a delta on the product grid restricted to one column -/
+lemma single_prod_fst {m : ℕ} (k : ZMod N × ZMod m) (j₂ : ZMod m) :
+    (fun i : ZMod N => (Pi.single k (1 : ℂ) : ZMod N × ZMod m → ℂ) (i, j₂))
+      = if j₂ = k.2 then (Pi.single k.1 (1 : ℂ) : ZMod N → ℂ) else 0 := by
+  funext i
+  by_cases h : j₂ = k.2
+  · subst h
+    simp only [if_true, Pi.single_apply, Prod.ext_iff]
+    by_cases h1 : i = k.1 <;> simp [h1]
+  · simp only [if_neg h, Pi.single_apply, Prod.ext_iff, Pi.zero_apply]
+    rw [if_neg]; intro hh; exact h hh.2
+
+/-- 2-D: for the separable DFT on an `N × M` grid (`Lib/DFT2.zmodPair2`), `F⁻¹ δ_(k₁,k₂)` is the product plane wave
+`e(j₁k₁/N) e(j₂k₂/M) / (N M)` — exactly the array `plane_waves(…) · 1/(N M)` that `_build_s_matrix` writes. -/
+theorem planewave_is_invDFT_delta_2d {M : ℕ} [NeZero M] (k j : ZMod N × ZMod M) :
+    (zmodPair2 N M).Finv (Pi.single k 1) j
+      = ((N : ℂ)⁻¹ * stdAddChar (j.1 * k.1)) * ((M : ℂ)⁻¹ * stdAddChar (j.2 * k.2)) := by
+  show (alongSnd (zmodPair M).Finv) ((alongFst (zmodPair N).Finv) (Pi.single k 1)) j = _
+  simp only [alongSnd, alongFst, LinearMap.coe_mk, AddHom.coe_mk]
+  have h : (fun j₂ : ZMod M => (zmodPair N).Finv (fun i => (Pi.single k (1 : ℂ) : ZMod N × ZMod M → ℂ) (i, j₂)) j.1)
+      = ((N : ℂ)⁻¹ * stdAddChar (j.1 * k.1)) • (Pi.single k.2 (1 : ℂ) : ZMod M → ℂ) := by
+    funext j₂
+    rw [single_prod_fst]
+    by_cases h2 : j₂ = k.2
+    · rw [if_pos h2, planewave_is_invDFT_delta]; simp [h2]
+    · rw [if_neg h2]; simp [h2]
+  rw [h, _root_.map_smul, Pi.smul_apply, planewave_is_invDFT_delta, smul_eq_mul]
+
+/-- The reduction identity on the concrete 2-D DFT: reducing the S-matrix built from the product plane waves with
+coefficient array `c` is the multislice of the probe `F₂⁻¹ c` (instance of `reduce_eq_multislice_probe`). -/
+theorem reduce_eq_multislice_probe_2d {M : ℕ} [NeZero M] (tr : Bool) (slices : List (Slice (ZMod N × ZMod M)))
+    (c : ZMod N × ZMod M → ℂ) :
+    ∑ k, c k • multislice (zmodPair2 N M) tr slices (planeWave (zmodPair2 N M) 1 k)
+      = multislice (zmodPair2 N M) tr slices ((zmodPair2 N M).Finv c) := by
+  rw [reduce_eq_multislice_probe]; simp
 
 end Concrete
 
@@ -632,6 +670,102 @@ theorem reduce_windows_index (x : Nat → Nat → α) (n₀ n₁ : Nat) (h₀ : 
     simp only [sub_add_cancel]
     exact this
 
+/-! ### crop-before-tensordot = crop-after: the window branch of `_reduce_to_waves` as the code runs it -/
+
+/-- corner of the window of one position -/
+def cornerOf (w : Nat × Nat) (p : Rat × Rat) : Int × Int :=
+  (pyRint (p.1 - (cropOffset (w.1 : Int) (w.2 : Int)).1), pyRint (p.2 - (cropOffset (w.1 : Int) (w.2 : Int)).2))
+
+lemma minimumCrop_spec (w : Nat × Nat) (hw₀ : 0 < w.1) (hw₁ : 0 < w.2) (pixel : List (Rat × Rat)) (hp : pixel ≠ []) :
+    ∃ (cc₀ cc₁ : Int) (S₀ S₁ : Nat),
+      minimumCrop pixel w = ((cc₀, cc₁), ((S₀ : Int), (S₁ : Int)),
+        (pixel.map (cornerOf w)).map fun c => (c.1 - cc₀, c.2 - cc₁)) ∧ 0 < S₀ ∧ 0 < S₁ ∧
+      ∀ p ∈ pixel, cc₀ ≤ (cornerOf w p).1 ∧ (cornerOf w p).1 + w.1 ≤ cc₀ + S₀ ∧
+        cc₁ ≤ (cornerOf w p).2 ∧ (cornerOf w p).2 + w.2 ≤ cc₁ + S₁ := by
+  set corners := pixel.map (cornerOf w) with hcor
+  set cc₀ := minL (corners.map (·.1)) with hcc₀
+  set cc₁ := minL (corners.map (·.2)) with hcc₁
+  set mu₀ := maxL ((corners.map fun c => (c.1 + (w.1 : Int), c.2 + (w.2 : Int))).map (·.1)) with hmu₀
+  set mu₁ := maxL ((corners.map fun c => (c.1 + (w.1 : Int), c.2 + (w.2 : Int))).map (·.2)) with hmu₁
+  have lo₀ : ∀ c ∈ corners, cc₀ ≤ c.1 := fun c hc => minL_le _ _ (List.mem_map.mpr ⟨c, hc, rfl⟩)
+  have lo₁ : ∀ c ∈ corners, cc₁ ≤ c.2 := fun c hc => minL_le _ _ (List.mem_map.mpr ⟨c, hc, rfl⟩)
+  have hi₀ : ∀ c ∈ corners, c.1 + (w.1 : Int) ≤ mu₀ := fun c hc =>
+    le_maxL _ _ (List.mem_map.mpr ⟨(c.1 + (w.1 : Int), c.2 + (w.2 : Int)), List.mem_map.mpr ⟨c, hc, rfl⟩, rfl⟩)
+  have hi₁ : ∀ c ∈ corners, c.2 + (w.2 : Int) ≤ mu₁ := fun c hc =>
+    le_maxL _ _ (List.mem_map.mpr ⟨(c.1 + (w.1 : Int), c.2 + (w.2 : Int)), List.mem_map.mpr ⟨c, hc, rfl⟩, rfl⟩)
+  obtain ⟨c, hc⟩ : ∃ c, c ∈ corners := by
+    cases hq : pixel with
+    | nil => exact absurd hq hp
+    | cons p ps => exact ⟨cornerOf w p, by rw [hcor, hq]; simp⟩
+  refine ⟨cc₀, cc₁, (mu₀ - cc₀).toNat, (mu₁ - cc₁).toNat, ?_, ?_, ?_, ?_⟩
+  · have e0 : ((mu₀ - cc₀).toNat : Int) = mu₀ - cc₀ := by have := lo₀ c hc; have := hi₀ c hc; omega
+    have e1 : ((mu₁ - cc₁).toNat : Int) = mu₁ - cc₁ := by have := lo₁ c hc; have := hi₁ c hc; omega
+    rw [e0, e1]
+    rfl
+  · have := lo₀ c hc; have := hi₀ c hc; omega
+  · have := lo₁ c hc; have := hi₁ c hc; omega
+  · intro p hp'
+    have hm : cornerOf w p ∈ corners := List.mem_map.mpr ⟨p, hp', rfl⟩
+    have := lo₀ _ hm; have := hi₀ _ hm; have := lo₁ _ hm; have := hi₁ _ hm
+    have := lo₀ c hc; have := hi₀ c hc; have := lo₁ c hc; have := hi₁ c hc
+    refine ⟨by omega, by omega, by omega, by omega⟩
+
+/-- the superposition `Σ_k c_k · S_k` of the planes, pixel by pixel -/
+def superpose (cs : List ℂ) (planes : List (Nat → Nat → ℂ)) : Nat → Nat → ℂ :=
+  fun i j => ((cs.zip planes).map fun cS => cS.1 * cS.2 i j).sum
+
+/-- linearity of the window map: combining the windows of the planes is the window of the combined plane -/
+lemma combine_windows (cs : List ℂ) (planes : List (Nat → Nat → ℂ)) (n₀ n₁ : Nat) (c₀ c₁ : Int) (S₀ S₁ : Nat) :
+    combine cs (planes.map fun S => window S n₀ n₁ c₀ c₁ S₀ S₁) S₀ S₁ = window (superpose cs planes) n₀ n₁ c₀ c₁ S₀ S₁ := by
+  rw [window_rows]
+  unfold combine superpose
+  apply List.map_congr_left; intro i hi
+  apply List.map_congr_left; intro j hj
+  rw [List.mem_range] at hi hj
+  rw [List.zip_map_right, List.map_map]
+  congr 1
+  apply List.map_congr_left; intro cS _
+  obtain ⟨c, S⟩ := cS
+  show c * (((window S n₀ n₁ c₀ c₁ S₀ S₁).getD i []).getD j 0) = _
+  congr 1
+  rw [window_rows]
+  simp [List.getD_eq_getElem?_getD, hi, hj]
+
+/-- `reduce_to_waves_index` (crop-before-tensordot = crop-after): the window branch of `_reduce_to_waves` as the code runs it
+— crop every plane, combine the crops with each position's coefficients, cut the batch windows — returns for every position
+the periodic window of *its own* superposition `Σ_k c_k S_k`, for every number of planes, all sizes, batches and positions. -/
+theorem reduce_to_waves_index (planes : List (Nat → Nat → ℂ)) (n₀ n₁ : Nat) (h₀ : 0 < n₀) (h₁ : 0 < n₁) (w : Nat × Nat)
+    (hw₀ : 0 < w.1) (hw₁ : 0 < w.2) (pixel : List (Rat × Rat)) (hp : pixel ≠ []) (coeffs : List (List ℂ)) :
+    reduceToWaves planes n₀ n₁ w pixel coeffs
+      = .ok ((pixel.zip coeffs).map fun pc => expectedWindow (superpose pc.2 planes) n₀ n₁ w pc.1) := by
+  obtain ⟨cc₀, cc₁, S₀, S₁, hmc, pS₀, pS₁, hb⟩ := minimumCrop_spec w hw₀ hw₁ pixel hp
+  unfold reduceToWaves
+  rw [hmc]
+  simp only
+  rw [mapM_ok planes _ (fun S => window S n₀ n₁ cc₀ cc₁ S₀ S₁)
+    (fun S _ => wrapped_crop_2d_index S n₀ n₁ h₀ h₁ cc₀ cc₁ S₀ S₁ pS₀ pS₁)]
+  simp only [bind, Except.bind, Int.toNat_natCast]
+  rw [List.map_map, List.zip_map_left]
+  rw [mapM_ok _ _ (fun cp => window (superpose cp.2 planes) n₀ n₁ (cp.1.1 + cc₀) (cp.1.2 + cc₁) w.1 w.2)]
+  · congr 1
+    rw [List.map_map]
+    apply List.map_congr_left
+    intro pc _
+    obtain ⟨p, c⟩ := pc
+    simp only [Function.comp, Prod.map_apply, id_eq, expectedWindow_eq, sub_add_cancel]
+    rfl
+  · intro cp hcp
+    rw [List.mem_map] at hcp
+    obtain ⟨pc, hpc, rfl⟩ := hcp
+    have hmem : pc.1 ∈ pixel := (List.of_mem_zip hpc).1
+    obtain ⟨b0, b0', b1, b1'⟩ := hb pc.1 hmem
+    obtain ⟨p, c⟩ := pc
+    show batchCrop (combine c _ S₀ S₁) ((cornerOf w p).1 - cc₀, (cornerOf w p).2 - cc₁) w = _
+    rw [combine_windows]
+    have := batchCrop_window (superpose c planes) n₀ n₁ cc₀ cc₁ S₀ S₁ (cornerOf w p) w b0 b0' b1 b1'
+    rw [this]
+    simp only [Prod.map_apply, Function.comp, id_eq, sub_add_cancel]
+
 /- Full statement for interpolation > 1 (not proved as a whole): for every scattering matrix, batch of positions and CTF,
    `SMatrixArray.reduce` returns, for position `p`, the window `w₀ × w₁` of the full superposition `Σ_k c_k(p) S_k` whose
    corner is `rint(p / sampling − w // 2)` taken periodically, independently of the other positions of the batch; in
@@ -639,9 +773,9 @@ theorem reduce_windows_index (x : Nat → Nat → α) (n₀ n₁ : Nat) (h₀ : 
    Proved (`reduce_windows_index`, restated below for a superposition plane): the whole cropping pipeline
    `minimum_crop → wrapped_crop_2d (block assembly or padding fallback) → batch_crop_2d`, applied to any plane, returns
    exactly those periodic windows, for every array and window size, every batch and every position.
-   Missing: (i) the code crops each plane `S_k` first, combines the crops with `tensordot` and then cuts the batch windows;
-   that this equals cropping the combined plane is pointwise linearity of a selection and is only covered by
-   correspondence with the real `_reduce_to_waves`; (ii) `Model/Prism.lean` is a hand model of the numpy semantics (slice
+   The order in which the code works — crop each plane `S_k`, combine the crops with `tensordot`, cut the batch windows —
+   is proved equivalent in `reduce_to_waves_index`.
+   Missing: (ii) `Model/Prism.lean` is a hand model of the numpy semantics (slice
    clamping, `.size == 0` shortcuts, `concatenate`, `np.pad(mode="wrap")`, advanced indexing) around the generated
    expressions, tied by exact differential correspondence; (iii) the physical statements (vacuum window = probe of the
    window-sized cell; with a potential PRISM interpolation is an approximation) are checked by the conformance oracle. -/
